@@ -91,6 +91,47 @@ fn toml_second_use_refused_before_any_work() {
 	std::mem::forget(r);
 }
 
+// ---- the value-based entry point (JSON slice input goes through transcode_value) ------------------------
+static mut VALUE_TOUCHED: bool = false;
+struct MockValue;
+impl ser::Serialize for MockValue {
+	fn serialize<S: ser::Serializer>(&self, s: S) -> Result<S::Ok, S::Error> {
+		unsafe { VALUE_TOUCHED = true; }
+		s.serialize_bool(true)
+	}
+}
+
+/// Same refusal through transcode_value: from any history with `used` set, the value is never looked at,
+/// nothing is written, Err is returned.
+#[kani::proof]
+#[kani::unwind(3)]
+#[kani::stub(::toml::to_string_pretty, to_string_pretty_contract)]
+fn toml_value_path_second_use_refused() {
+	let mut out = Output::new(W::new(false));
+	out.used = true;
+	let r = out.transcode_value(MockValue);
+	assert!(r.is_err(), "a second TOML document was accepted through transcode_value");
+	assert!(unsafe { !VALUE_TOUCHED }, "value serialized although the output was already used");
+	assert!(out.w.writes == 0, "bytes written for a refused document");
+	assert!(out.used);
+	std::mem::forget(r);
+}
+
+/// First use through transcode_value with a non-table root: refused without a write, and the use is consumed.
+#[kani::proof]
+#[kani::unwind(3)]
+#[kani::stub(::toml::to_string_pretty, to_string_pretty_contract)]
+fn toml_value_path_first_use_marks_used() {
+	let mut out = Output::new(W::new(false));
+	let r = out.transcode_value(MockValue);
+	assert!(r.is_err(), "a non-table root was accepted");
+	assert!(unsafe { VALUE_TOUCHED });
+	assert!(out.w.writes == 0, "bytes written for a refused document");
+	assert!(out.used, "the use mark must be set on the value path as well");
+	assert!(unsafe { PRETTY_CALLS } == 0);
+	std::mem::forget(r);
+}
+
 /// First use with a root that is not a table (boolean / integer / float, any payload) or with a failing
 /// deserializer: Err, zero writer calls, and the single use is consumed (a later document is refused).
 /// One harness per root kind: a toml::Value whose variant is symbolic cannot be dropped under CBMC.
